@@ -23,6 +23,8 @@ HOOK_DEFINE = '-DACE_TIME_VERIF_HOOKS=1'
 COMMON = ['-std=gnu++11', '-DUNIX_HOST_DUINO', '-Wno-deprecated-declarations']
 VARIANTS = {
     'plain': ['-O2'],
+    # AceTime's `unsigned long` compiled as 32 bits, as on every Arduino target (see sim/clock.h)
+    'plain32': ['-O2', '-DSIM_ULONG32'],
     'san': ['-O1', '-g', '-fno-omit-frame-pointer', '-fsanitize=address,undefined',
             # UB reports are recoverable: simdev's __ubsan_on_report() hook turns each into a verdict
             # (replay) or a UBHIT line (batch) and execution continues; ASan errors stay fatal.
